@@ -24,13 +24,9 @@ PROP = "C01"
 
 def exc_matches(exc, err):
     """does the exception of the real code correspond to the error the I-layer (with the open deviations) predicts?"""
-    if err == "mismatch":
-        return exc["type"] in ("OSError", "IOError") and "match_nodes_to_blocks" in exc["site"] and "mismatch in the length" in exc["msg"]
-    if err == "index":
+    if err == "index":       # F14: a residue whose 'graph' is empty is reached by a link
         return exc["type"] == "IndexError" and "match_link_and_residue_atoms" in exc["site"]
-    if err == "fragindex":
-        return exc["type"] == "IndexError" and "map_to_molecule.py:add_blocks" in exc["site"]
-    return False
+    return False             # F31 / F32 are repaired: their errors are violations again
 
 
 def classify(case, obs, asis):
@@ -149,9 +145,9 @@ DEVS = [("FF_Gsmall", "unsorted", "C01_Inv", "m01: residues not sorted by residu
         ("FF_Msmall", "renumber", "C01_Inv", "F7 (repaired): atom removal renumbers all residue ids from 0"),
         ("FF_Msmall", "keepremoved", "C01_Inv", "m03: interactions of removed atoms kept"),
         ("FF_Gsmall", "f14", "C01_Inv", "F14 (open): first fragment keeps the block's residue ids"),
-        ("FF_Gsmall", "f31", "C01_Inv", "F31 (open): fragments found along depth-first tree edges only"),
+        ("FF_Gsmall", "f31", "C01_Inv", "F31 (repaired): fragments found along depth-first tree edges only"),
         ("FF_S", "f30", "C01_Inv", "F30 (open): block interactions with equal (section, atoms, version) collapse"),
-        ("FF_X5", "f32", "C01_Inv", "F32 (open): block-copy correspondences looked up by fragment number"),
+        ("FF_X5", "f32", "C01_Inv", "F32 (repaired): block-copy correspondences looked up by fragment number"),
         ("FF_Msmall", "versioninkey", "C01_Inv", "removed-node-key-equals-version (repaired): write-back tests the version number as an atom"),
         ("FF_Msmall", "modanyres", "C01_Inv", "a modification touching another residue")]
 REACH = [("FF_X4", "Reach_Frag2"), ("FF_Msmall", "Reach_Removed"), ("FF_Msmall", "Reach_Mod")]
